@@ -26,6 +26,7 @@ RULES_DOC["R12"] = "= C07.R1: every queue operation installed for a shared acces
 RULES_DOC["R13"] = "= C12.R4: revive clears every pending request before the unit is pushed (a stale cancel/migrate request does not swallow the revived run)"
 RULES_DOC["R14"] = "RANDWS scheduler: the pool it steals from ranges over every pool but its own -- the index is `random % A + B` with B = 1 and A + B = num_pools (or the constant 1 when there are two pools), so no pool of the scheduler is left unpolled"
 RULES_DOC["R15"] = "= C07.R7: the batch push hands every non-NULL handle to the pool exactly once (compaction with one counter)"
+RULES_DOC["X4"] = common.X4_DOC
 RULES_DOC.update({
     "R1": "create/revive push the unit exactly once iff pool_op == PUSH, never on error paths",
     "R2": "no store to the new descriptor after it was pushed",
@@ -554,6 +555,7 @@ def _alternatives(F, i, depth=3):
 
 
 def run(P, rep, tier):
+    common.rule_X4(P, rep)
     common.run_shared(P, rep, which=("X1",))
     rule_R1_R2(P, rep)
     rule_R3(P, rep)
